@@ -32,6 +32,10 @@ func (P *Program) touchesGuarded(fn *ssa.Function, depth int, seen map[*ssa.Func
 						}
 					}
 				}
+			case *ssa.MakeClosure:
+				if f, ok := i.Fn.(*ssa.Function); ok && P.boundNeedsLock(f) != "" {
+					return true
+				}
 			case ssa.CallInstruction:
 				common := i.Common()
 				if common.IsInvoke() {
@@ -108,4 +112,45 @@ func (P *Program) sweepJobs() map[string]*FuncContract {
 			Options: map[string]string{"sweep": "true", "noframe": "true", "old": "section"}}
 	}
 	return out
+}
+
+// boundNeedsLock: fn is a bound-method wrapper (x.m used as a value) of a
+// method whose contract - or, for an interface method, whose interface
+// contract - requires a lock to be held. Returns a description, or "".
+func (P *Program) boundNeedsLock(fn *ssa.Function) string {
+	if fn == nil || !strings.Contains(fn.Synthetic, "bound method wrapper") {
+		return ""
+	}
+	m, ok := fn.Object().(*types.Func)
+	if !ok || m == nil {
+		return ""
+	}
+	sig, _ := m.Type().(*types.Signature)
+	if sig == nil || sig.Recv() == nil {
+		return ""
+	}
+	rt := sig.Recv().Type()
+	if pt, ok := rt.(*types.Pointer); ok {
+		rt = pt.Elem()
+	}
+	if types.IsInterface(rt) {
+		if nt, ok := rt.(*types.Named); ok && nt.Obj().Pkg() != nil {
+			if cf := P.Contracts[pkgShortAny(nt.Obj().Pkg().Path())]; cf != nil {
+				if c := cf.Ifaces[nt.Obj().Name()+"."+m.Name()]; c != nil && contractNeedsLock(c) {
+					return nt.Obj().Name() + "." + m.Name()
+				}
+			}
+		}
+		return ""
+	}
+	if mf := P.Prog.FuncValue(m); mf != nil {
+		body := mf
+		if len(body.Blocks) == 0 && mf.Origin() != nil {
+			body = mf.Origin()
+		}
+		if c := P.ContractFor(body); c != nil && contractNeedsLock(c) {
+			return fullKey(body)
+		}
+	}
+	return ""
 }
